@@ -46,7 +46,7 @@ theorem init_eq_of_better {start stop fS fE eps : α} (h1 : start ≤ stop) (h2 
     (h3 : ¬ |fS| < |fE|) :
     init start stop fS fE eps = some (⟨eps, start, stop, fS, fE, start, start, fS, true, none⟩ : St α) := by
   unfold init swapIfNeeded
-  simp [h1, h2, absv_eq_abs, h3]
+  simp [h1, (oppSign_iff fS fE).mpr h2, absv_eq_abs, h3]
 
 section step
 variable {R : α} {k : Nat} {s : St α}
@@ -109,7 +109,7 @@ theorem over_interp (hR : 1 < R) (h : Over R k s) : useBisect s (interpDx s) = f
     rw [h.eps4, abs_of_pos (by nlinarith [hb.1])]; ring
   rw [Bool.eq_false_iff]
   intro hu
-  simp only [useBisect, absv_eq_abs, Bool.or_eq_true, Bool.and_eq_true, decide_eq_true_eq,
+  simp only [useBisect_eq, useBisect5, absv_eq_abs, Bool.or_eq_true, Bool.and_eq_true, decide_eq_true_eq,
     Bool.not_eq_true'] at hu
   rcases hu with ((((hu | hu) | ⟨hb1, hu⟩) | ⟨hb0, hu⟩) | ⟨hb1, hu⟩) | ⟨hb0, hu⟩
   · rw [e1, e2] at hu; linarith
@@ -155,7 +155,7 @@ theorem over_step (hR : 1 < R) (h : Over R (k + 1) s) :
         rw [hfa, show s.fa * (-R * s.fa) = -(R * s.fa ^ 2) by ring]
         have : 0 < R * s.fa ^ 2 := by positivity
         linarith
-      rw [if_pos this]
+      rw [if_pos ((oppSign_iff _ _).mpr this)]
     rw [hu]
     unfold swapIfNeeded
     have : absv (getNext s).1.fa < absv (-R * s.fa) := by
